@@ -108,6 +108,75 @@ def payloadHighloadV0 (b : CellB) (msgs : List RawMsg) : Outcome CellB :=
     let b ← b.write [true]
     b.addRef d
 
+/-! ### v5 extended actions (wallet.W5ExtendedAction / W5ExtendedActions) -/
+
+/-- an internal address as the extended actions carry it: `addr_none$00` or `addr_std$10` without anycast (other
+forms of `MsgAddress` are outside the modelled fragment) -/
+inductive ExtAddr where
+  | none
+  | std (wc : Int) (hash : List UInt8)     -- workchain_id:int8, address:bits256
+  deriving Repr, DecidableEq, Inhabited
+
+/-- `add_extension#02 addr`, `remove_extension#03 addr`, `set_signature_allowed#04 allowed:Bool` -/
+inductive ExtAction where
+  | addExtension (a : ExtAddr)
+  | removeExtension (a : ExtAddr)
+  | setSignatureAllowed (b : Bool)
+  deriving Repr, DecidableEq, Inhabited
+
+def extAddrBits : ExtAddr → List Bool
+  | .none => [false, false]
+  | .std wc hash => [true, false] ++ [false] ++ intToBits 8 (toI8 wc) ++ bytesToBits (hash.take 32 ++ List.replicate (32 - hash.length) 0)
+
+def extActionBits : ExtAction → List Bool
+  | .addExtension a => natToBits 8 2 ++ extAddrBits a
+  | .removeExtension a => natToBits 8 3 ++ extAddrBits a
+  | .setSignatureAllowed b => natToBits 8 4 ++ [b]
+
+/-- `W5ExtendedActions.MarshalTLB`: the first action into the current cell, every further one into a fresh cell
+referenced from the previous one (the reference is added before the child is filled); nothing for an empty list -/
+def writeExtActions (b : CellB) : List ExtAction → Outcome CellB
+  | [] => .ok b
+  | [a] => b.write (extActionBits a)
+  | a :: rest => do
+    let b ← b.write (extActionBits a)
+    let child ← writeExtActions CellB.empty rest
+    b.addRef child.toCell
+
+/-- the `maybe` field `ExtendedActions *W5ExtendedActions`: nil pointer ↦ 0, otherwise 1 and the actions -/
+def writeExtField (b : CellB) : Option (List ExtAction) → Outcome CellB
+  | none => b.write [false]
+  | some l => (b.write [true]).bind fun b => writeExtActions b l
+
+/-- the signed cell of `walletV5R1.CreateSignedMsgBodyCell(key, msgs, extensionsActions, cfg)` -/
+def signedCellV5Ext (ids : BodyIds) (op seqno validUntil : Nat) (msgs : List RawMsg) (ext : Option (List ExtAction)) : Outcome Cell := do
+  let b ← CellB.empty.writeUint op 32
+  let b ← b.writeUint ids.walletId 32
+  let b ← b.writeUint validUntil 32
+  let b ← b.writeUint seqno 32
+  let b ← b.write [true]
+  let a ← w5Actions msgs
+  let b ← b.addRef a
+  let b ← writeExtField b ext
+  pure b.toCell
+
+/-- the `maybe^` field `Actions *W5Actions` -/
+def writeActionsField (b : CellB) : Option (List RawMsg) → Outcome CellB
+  | none => b.write [false]
+  | some l => do
+    let b ← b.write [true]
+    let a ← w5Actions l
+    b.addRef a
+
+/-- an `extension_action#6578746e query_id:uint64 actions:(Maybe ^…) extended:(Maybe …)` body (sent by an extension as an
+internal message; marshalled from `wallet.MessageV5{ExtensionAction}` by the reflection codec) -/
+def extensionBody (queryId : Nat) (msgs : Option (List RawMsg)) (ext : Option (List ExtAction)) : Outcome Cell := do
+  let b ← CellB.empty.writeUint opExtension 32
+  let b ← b.writeUint queryId 64
+  let b ← writeActionsField b msgs
+  let b ← writeExtField b ext
+  pure b.toCell
+
 /-! ### the cell that is signed, per version -/
 
 /-- the cell whose representation hash is signed. `rnd` is the highload wallet's `rand.Uint32()`, `op` the v5 opcode
@@ -327,7 +396,9 @@ structure Decoded where
   seqno : Nat
   validUntil : Nat
   queryId : Nat := 0
-  msgs : List RawMsg
+  msgs : List RawMsg                    -- what `ExtractRawMessages` returns
+  ext : List ExtAction := []            -- v5: the extended actions
+  extnActions : List RawMsg := []       -- v5 `ExtensionAction`: its send actions (which `RawMessages()` does NOT return)
   deriving Inhabited
 
 /-- `PayloadV1toV4.UnmarshalTLB`: while there is a ref, read a mode byte -/
@@ -381,6 +452,55 @@ def readActionsRefIf (r : CellR) (flag : Bool) : Outcome (List (Nat × Option Ce
 def actionsToMsgs (l : List (Nat × Option Cell)) : List RawMsg :=
   l.map fun (mode, m) => { mode := mode, msg := m.getD (.ordinary [] []) }
 
+/-- `MsgAddress.UnmarshalTLB` restricted to what `ExtAddr` represents -/
+def readExtAddr (r : CellR) : Outcome (ExtAddr × CellR) := do
+  let (t, r) ← r.readUint 2
+  if t = 0 then pure (.none, r)
+  else if t = 2 then
+    let (any, r) ← r.readBit
+    if any then .err "unmodelled: anycast"
+    else
+      let (wc, r) ← r.readBits 8
+      let (a, r) ← r.readBits 256
+      pure (.std (bitsToInt wc) (bitsToBytes a), r)
+  else .err "unmodelled: addr_extern / addr_var"
+
+/-- one `W5ExtendedAction` (sum type with 8-bit tags; fewer than 8 bits left: no constructor matches) -/
+def readExtAction (r : CellR) : Outcome (ExtAction × CellR) :=
+  if r.bits.length < 8 then .err "can not decode sumtype"
+  else do
+    let (tag, r) ← r.readUint 8
+    if tag = 2 then (readExtAddr r).bind fun x => .ok (.addExtension x.1, x.2)
+    else if tag = 3 then (readExtAddr r).bind fun x => .ok (.removeExtension x.1, x.2)
+    else if tag = 4 then (r.readBit).bind fun x => .ok (.setSignatureAllowed x.1, x.2)
+    else .err "can not decode sumtype"
+
+/-- the tail of `W5ExtendedActions.UnmarshalTLB`: follow the first reference of each cell while there is one -/
+def readExtChain : (fuel : Nat) → Cell → Outcome (List ExtAction)
+  | 0, _ => .err "fuel"
+  | fuel + 1, c =>
+    if c.ty = tyLibrary then .err "library cell decoding is not configured properly"
+    else do
+      let (a, r) ← readExtAction (CellR.ofCell c)
+      match r.refs with
+      | [] => pure [a]
+      | next :: _ => do
+        let rest ← readExtChain fuel next
+        pure (a :: rest)
+
+/-- `W5ExtendedActions.UnmarshalTLB` at the current position: one action from the current cell, then the chain hanging
+off the next unread reference; the caller goes on reading the current cell after the first action -/
+def readExtActions (r : CellR) : Outcome (List ExtAction × CellR) := do
+  let (a, r) ← readExtAction r
+  match r.refs with
+  | [] => pure ([a], r)
+  | next :: rest => do
+    let l ← readExtChain (next.depthO + 2) next
+    pure (a :: l, { r with refs := rest })
+
+def readExtField (r : CellR) (flag : Bool) : Outcome (List ExtAction × CellR) :=
+  if flag then readExtActions r else .ok ([], r)
+
 /-- the decoder of the version applied to the body cell of an external message:
 `DecodeMessageV3/V4/HighloadV2` (via `SignedMsgBody`), `DecodeMessageV5`, `DecodeMessageV5Beta` -/
 def decodeBody (v : Version) (body : Cell) : Outcome Decoded :=
@@ -414,7 +534,13 @@ def decodeBody (v : Version) (body : Cell) : Outcome Decoded :=
       if r.bits.length < 32 then .err "can not decode sumtype"
       else
         let (op, r) ← r.readUint 32
-        if op = opExtension then .err "unmodelled: extension action"
+        if op = opExtension then
+          let (q, r) ← r.readUint 64
+          let (hasA, r) ← r.readBit
+          let (acts, r) ← readActionsRefIf r hasA
+          let (hasE, r) ← r.readBit
+          let (exts, _) ← readExtField r hasE
+          pure { ids := {}, seqno := 0, validUntil := 0, queryId := q, msgs := [], ext := exts, extnActions := actionsToMsgs acts }
         else if op ≠ opSignedInternal ∧ op ≠ opSignedExternal then .err "can not decode sumtype"
         else
           let (wid, r) ← r.readUint 32
@@ -423,7 +549,10 @@ def decodeBody (v : Version) (body : Cell) : Outcome Decoded :=
           let (hasA, r) ← r.readBit
           let (acts, r) ← readActionsRefIf r hasA
           let (hasE, r) ← r.readBit
-          if hasE then .err "unmodelled: extended actions"
+          if hasE then
+            let (exts, r) ← readExtActions r
+            let (_, _) ← r.readBits 512
+            pure { ids := { walletId := wid }, seqno := seq, validUntil := vu, msgs := actionsToMsgs acts, ext := exts }
           else
             let (_, _) ← r.readBits 512
             pure { ids := { walletId := wid }, seqno := seq, validUntil := vu, msgs := actionsToMsgs acts }
